@@ -6,6 +6,7 @@ are removed, nothing else is) on the implementation's answers.  Correspondence: 
 """
 import collections
 import datetime
+import re
 
 from . import common
 from .common import hex16
@@ -140,6 +141,39 @@ def run(ctx):
     # expression over the reference expansions of the single rules
     from . import p_algebra
     an, afails, ahist, aocc, ast = p_algebra.run(ctx, exe, rng, 2500 if ctx.tier == "thorough" else 350, True)
+    # dates (VALUE=DATE) as exceptions and additions of an event that is timed in a zone: the day is a day of that zone;
+    # and lists in two calendar scales
+    import datetime as _dt, zoneinfo as _zi
+    zops, zwant = [], []
+    for k in range(40 if ctx.tier == "thorough" else 12):
+        zone = rng.choice(["Europe/Berlin", "America/New_York", "Asia/Kolkata", "Pacific/Auckland", "America/Los_Angeles"])
+        d0 = _dt.date(rng.randint(2005, 2030), rng.choice([1, 7]), rng.randint(2, 10))       # (away from the changes of the clocks)
+        hh, mm = rng.choice([0, 1, 20, 23]), rng.choice([0, 30])
+        z = _zi.ZoneInfo(zone)
+        loc = lambda d: _dt.datetime(d.year, d.month, d.day, hh, mm, tzinfo=z).astimezone(_dt.timezone.utc)
+        days = [d0 + _dt.timedelta(days=i) for i in range(6)]
+        xd, rd = days[rng.randint(1, 4)], d0 + _dt.timedelta(days=rng.randint(8, 12))
+        want = sorted(loc(d) for d in days + [rd] if d != xd)
+        cal = "\n".join(["BEGIN:VCALENDAR", "BEGIN:VEVENT", "UID:zd%d" % k, "SUMMARY:x", "DTSTART;TZID=%s:%04d%02d%02dT%02d%02d00" % (zone, d0.year, d0.month, d0.day, hh, mm),
+                         "RRULE:FREQ=DAILY;COUNT=6", "EXDATE;VALUE=DATE:%04d%02d%02d" % (xd.year, xd.month, xd.day),
+                         "RDATE;VALUE=DATE:%04d%02d%02d" % (rd.year, rd.month, rd.day), "END:VEVENT", "END:VCALENDAR", ""])
+        zops.append("p.occ %s 10" % cal.encode().hex())
+        zwant.append(([common.hex16(u.year, u.month, u.day, u.hour, u.minute, u.second, 1023) for u in want], zone, cal))
+    # a monthly Hijri rule with exceptions given in both scales (the second Gregorian one and the Hijri one name occurrences)
+    cal = "\n".join(["BEGIN:VCALENDAR", "BEGIN:VEVENT", "UID:two-scales", "SUMMARY:x", "DTSTART;VALUE=DATE:20200101", "RRULE:FREQ=MONTHLY;SCALE=HIJRI;BYMONTHDAY=1;COUNT=5",
+                     "EXDATE:20200127,20200424", "EXDATE;SCALE=HIJRI:14410701", "END:VEVENT", "END:VCALENDAR", ""])
+    zops.append("p.occ %s 10" % cal.encode().hex())
+    zwant.append(([common.hex16(2020, 1, 26, 255, 0, 0, 0), common.hex16(2020, 3, 25, 255, 0, 0, 0), common.hex16(2020, 5, 24, 255, 0, 0, 0)], "HIJRI", cal))
+    zout, zst, _ = ctx.impl(exe, zops)
+    for k, (want, zone, cal) in enumerate(zwant):
+        g = zout[k] if k < len(zout) else "<no answer>"
+        m_ = re.search(r"occ=([^}]*)\}", g)
+        got = [o.split("+")[0] for o in m_.group(1).split(",") if len(o.split("+")[0]) == 16] if m_ else None
+        if got != want:
+            afails.append((zops[k], "%s : DATE-valued EXDATE/RDATE (or lists in two scales) next to a start in %s: occurrences %s, the dates named are days of the event's calendar and zone: %s"
+                           % (" / ".join(l for l in cal.split("\n") if l[:5] in ("DTSTA", "RRULE", "RDATE", "EXDAT")), zone,
+                              [common.unhex16(x)[:5] for x in got] if got is not None else g[:80], [common.unhex16(x)[:5] for x in want])))
+    ctx.cov["date_valued_exceptions_in_zones"] = len(zops)
     alg = {}
     for op, why in afails:
         alg[len(alg)] = op
